@@ -52,7 +52,7 @@ Failed2(r) ==
             [] c = "DRIFT_tables" -> /\ \A t \in Tags : T[t] = IoBc(nx, ny, t)
                                      /\ \A f \in 0..(nf - 1) : Inc[f] = Incidence(nx, ny, f)}
 
-Failed(r) == IF r.dim = 1 THEN Failed1(r) ELSE Failed2(r)
+Failed(r) == IF r.kind = "raised" THEN {"C20_raised"} ELSE IF r.dim = 1 THEN Failed1(r) ELSE Failed2(r)
 Init == i = 0 /\ bad = <<>>
 Step == /\ i < Len(Recs) /\ i' = i + 1
         /\ bad' = bad \o SetToSeq({[id |-> Recs[i'].id, clause |-> c] : c \in Failed(Recs[i'])})
